@@ -7,7 +7,7 @@ from .kitchen import PATTERNS
 
 NAMES = ["a", "b", "name", "id", "user_id", "userId", "UserID", "url", "html_url", "count", "size", "tags", "items", "list", "listElem", "value", "plain", "raw",
          "err", "j", "type", "kind", "x-y", "x_y", "xY", "with space", "a.b", "1st", "point", "checkpoint", "Content-Type", "ContentType", "additionalProperties",
-         "mValue", "shape", "shapeElem", "ısı", "ſerial", "été", "日本", "-", "n", "m", "l", "o", "s"]
+         "mValue", "shape", "shapeElem", "ısı", "ſerial", "été", "日本", "-", "n", "m", "l", "o", "s", "cpu%", "100%d", "id2", "email", "phone"]
 DEFNAMES = ["Thing", "thing", "Item", "Label", "Base", "base", "Plain", "plain", "Node", "foo_bar", "fooBar", "FooBar", "T", "T_1", "Value", "Elem", "Raw"]
 STRS = ["", "a", "ab", "abc", "abcd", "50%", "100% sure", "%d", "a\"b", "back\\slash", "new\nline", "tab\t", "`tick`", "unié", "0", "true", "null", "red", "green"]
 INTS = [-129, -128, -100, -2, -1, 0, 1, 2, 3, 5, 9, 10, 100, 127, 128, 255, 256, 1000, 32767, 65535, 65536, 2147483647, 4294967295]
@@ -55,6 +55,8 @@ class WideGen:
         pal = INTS if integer else NUMS
         if integer and self.maybe(0.2):
             pal = [-7.5, -2.5, 0.5, 2.5, 7.5, 126.5, 255.5] + INTS[4:12]
+        if self.maybe(0.08):
+            pal = [-1e20, -1.5e19, -9.3e18, 0, 1, 100, 9.3e18, 1e20]       # beyond every 64-bit type
         if self.maybe(0.45):
             s["minimum"] = self.pick(pal)
         if self.maybe(0.45):
@@ -154,6 +156,14 @@ class WideGen:
                 brs.append({"$ref": "#/$defs/" + self.pick(sorted(self.defs))})
             elif r < 0.4:
                 brs.append({"required": [self.pick(NAMES)]})
+            elif r < 0.5 and brs:
+                # a member with a property of its own that requires (before / after its own key) a key some earlier member declares
+                prev = [k for b0 in brs for k in (b0.get("properties") or {})]
+                own = self.pick(NAMES)
+                req = ([self.pick(prev)] if prev else []) + [own]
+                if self.maybe(0.5):
+                    req.reverse()
+                brs.append({"type": "object", "properties": {own: self.node(0)}, "required": req})
             else:
                 b = self.obj(max(depth - 1, 0))
                 if self.maybe(0.15):
@@ -188,8 +198,11 @@ class WideGen:
                 s["default"] = self.pick(STRS + INTS[:6])
         elif r < 0.9 and depth > 0:
             s = self.composite(depth)
-        elif r < 0.94:
+        elif r < 0.92:
             s = {"enum": self.rng.sample(STRS + INTS[:8] + [True, None, 2.5], self.pick([1, 2, 3]))}
+        elif r < 0.94:
+            t, vals = self.pick([("string", ["auto", "manual", "x"]), ("integer", [1, 2, 3]), ("number", [0.5, 2]), ("boolean", [True])])
+            s = {"type": self.pick([[t, "null"], ["null", t], t]), "enum": self.rng.sample(vals, self.pick([1, len(vals)])) + ([None] if self.maybe(0.6) else [])}
         elif r < 0.97:
             s = {}
             if self.maybe(0.4):
